@@ -296,7 +296,18 @@ fn gen_fault(t: &mut Tape, rs: &RSchema, world: &World, req: &Req) -> Option<Fau
                     _ => None,
                 }
             }
-            match t.upto(5) {
+            match t.upto(6) {
+                5 => {
+                    // as a parent of an entity whose type may be a member of the enumerated type
+                    for u in ents.iter().map(|u| (*u).clone()).collect::<Vec<_>>() {
+                        let et = rs.et(&u.ty)?;
+                        if et.member_of.contains(&en.name) {
+                            w.entities.get_mut(&u)?.parents.insert(bad.clone());
+                            return Some(Fault { kind: "enum-id-parent", side: Side::Entity(u), depth: 0, world: w, req: r, extra: vec![] });
+                        }
+                    }
+                    None
+                }
                 0 => {
                     // as an entity in the store
                     w.entities.insert(bad.clone(), EntityData::default());
